@@ -85,6 +85,7 @@ pub mod verif {
 	}
 
 	pub use crate::btree::verif::{separator_codec, NodeDump, TreeDump};
+	pub use crate::btree::verif::node_codec;
 
 	/// Read-only dump of the btree of column `col` as seen through the log overlay.
 	pub fn btree_dump(db: &crate::Db, col: crate::ColId) -> crate::Result<TreeDump> {
